@@ -74,7 +74,7 @@ func verifEnumBlob(k int) ([]byte, Index, *verifStore) {
 	var blob []byte
 	for c := 0; c < k; c++ {
 		alphabet := []byte{0x41, 0x00, 0x42}
-		if c == 0 && vTier() == 0 {
+		if c == 0 {
 			alphabet = alphabet[:2] // by symmetry the first chunk need not be B
 		}
 		data := []byte{alphabet[vChoose("byte", len(alphabet))]}
@@ -272,4 +272,41 @@ func VerifC01_RepeatedSeedRanges() {
 	action := []InvalidSeedAction{InvalidSeedActionBailOut, InvalidSeedActionSkip}[vChoose("invalid-seed-action", 2)]
 	_, err := AssembleFile(context.Background(), target, idx, st, []Seed{s}, AssembleOptions{N: 1, InvalidSeedAction: action})
 	verifCheckAssembled(target, letters, err, damaged == 3 || action == InvalidSeedActionSkip)
+}
+
+// VerifC01_NullCopy: the plain-copy route of the null-chunk seed (a run of all-zero max-size
+// chunks written into a target that held other data, on a file system without cloning) on a
+// real file: exactly the range is zeroed - the bytes before and after it, and the file's
+// length, stay as they were.  Range lengths around typical buffer sizes.
+func VerifC01_NullCopy() {
+	lens := []int{1, 100, 4095, 4096, 32767, 32768, 32769, 50000, 65536, 65537, 70000}
+	n := lens[vChoose("length", len(lens))]
+	off := []int{0, 1, 4096}[vChoose("offset", 3)]
+	tail := 40000
+	dir := vTempDir()
+	prior := make([]byte, off+n+tail)
+	for k := range prior {
+		prior[k] = 0xEE
+	}
+	os.WriteFile(dir+"/out", prior, 0644)
+	f, err := os.OpenFile(dir+"/out", os.O_RDWR, 0)
+	vAssert(err == nil, "open")
+	s := &nullChunkSection{from: 0, to: uint64(n)}
+	copied, _, err := s.copy(f, uint64(off), uint64(n))
+	f.Close()
+	vCover("copied")
+	vAssert(err == nil && copied == uint64(n), "null copy failed or reports a wrong count")
+	got, _ := os.ReadFile(dir + "/out")
+	vAssert(len(got) == len(prior), "the null copy changed the length of the target")
+	ok := len(got) == len(prior)
+	for k := 0; ok && k < len(got); k++ {
+		want := byte(0xEE)
+		if k >= off && k < off+n {
+			want = 0
+		}
+		if got[k] != want {
+			ok = false
+		}
+	}
+	vAssert(ok, "the null copy did not zero exactly its range (bytes before or after it changed, or some were left)")
 }
